@@ -16,6 +16,11 @@ P = {
          "every return after the deadline was set is preceded on all paths by a drain to the deadline, a sleep until it, a read error or Proxy; the deadline precedes the first read and is now+d with d in [5 s,10 s) by interval evaluation; obfs4 says not-transport only at 8192 bytes; the loop removes a transport only on ErrNotTransport. "
          "Wall-clock behaviour, the vendored obfs4 handshake after a mark match and kernel-level ACKs are not decided.",
          "4/C03"),
+ "C04": (True, "who-may-mutate over the receive buffer, must-pass append, buffer-effect summaries with path-sensitive reachability to retry errors, constant evaluation of the prefix table (AST + go/types), value-flow of the wrapped connection (go/ssa)",
+         "Decides for every segmentation: the handler's receive buffer is append-only (Write(buf[:n]) of the same read, must-pass before transports are consulted, no other mutator or escape) and the same buffer is offered each time; in every WrapConnection implementation and its callees no path that consumed from or wrote to the buffer can return ErrTryAgain/ErrNotTransport (callee summaries 'mutates only when returning nil'); "
+         "every default prefix satisfies Offset == len(StaticMatch) and MinLen == MaxLen == Offset + tag, tag slices are dominated by the matching length tests and exactly prefix+tag is consumed; success returns PrependToConn(conn, data) which reads buffered bytes first, PrefixConn overrides only Read; a match clears the deadline on the wrapped connection, marks the returned registration active and hands the wrapped connection to Proxy. "
+         "Byte-exact delivery under concrete segmentations and obfs4's own framing are not decided.",
+         "4/C04"),
  "C05": (True, "must-pass / reachability path rules with nil-fact path sensitivity on go/ssa (io.Reader contract, defer registration, pairing)",
          "Decides on every path of halfPipe/Proxy: data returned with a read error is written before the loop exits; the written slice is the read prefix and counters use the write count; the loop continues only after a full, error-free write; "
          "WaitGroup release and close of both connections are deferred before the first return and the closer always reaches Close; wg.Add matches the goroutines started; session gauge paired; covert and client connections closed by defers. "
